@@ -97,8 +97,26 @@ def reason_not_overwritten(R, prog, P):
     G = K.build(R, prog, 'photon::thread_interrupt')
     res = an.run(G, [an.LockTracker(), an.GuardTracker(lambda k: True)])
     wr = lambda ev: (K.written_member(ev) or ('',))[0] == ERRN
+    th = K.param(G.root, 0)
+    snap = K.locals_defined_only_by(G.root, r'^%s->state$' % re.escape(th)) | {th + '->state'}    # the state, or a local snapshot of it
     K.check_at(R, P + '.K6', G, res, wr,
                require=lambda st, ev: any(re.match(r'^G:\w+ == 0=T$', x) or re.match(r'^G:\w+=F$', x) or re.match(r'^G:\w+->error_number=F$', x) for x in st if 'error_number' in x)
-               and any(re.match(r'^G:state == 0=T$', x) or re.match(r'^G:state=F$', x) for x in st),
+               and any(('G:%s == 0=T' % n) in st or ('G:%s=F' % n) in st for n in snap),
                key_fn=lambda ev: P + '.K6:photon::thread_interrupt:mark-only-ready-unmarked',
                describe=lambda ev: 'without the thread lock a reason is stored only for a READY thread with no pending reason', min_sites=1, what='error_number write')
+
+
+def gather_extract(R, prog, P):
+    """K6 (shared by C14 and C12): iovector::extract_{front,back}_continuous gather-copies `bytes` into a fresh buffer only
+    if the vector really holds that many bytes and the buffer was allocated - otherwise a deserialized field would be
+    longer than the received input."""
+    for nm in ('front', 'back'):
+        f = prog.find('iovector::extract_%s_continuous' % nm)
+        G = K.build_f(R, prog, f)
+        res = an.run(G, [an.GuardTracker(lambda k: True)])
+        n = K.param(f, 0)
+        K.check_at(R, P + '.K6', G, res, lambda ev, nm=nm: ev.kind == 'call' and (ev.callee() or '').endswith('iovector::extract_' + nm) and len(ev.e.get('args', [])) == 2,
+                   require=lambda st, ev, n=n: ev.arg_path(0) == n and any(re.match(r'^G:\w+\.sum\(\) < %s=F$' % re.escape(n), k) for k in st) and
+                   ev.arg_path(1) is not None and ('G:%s=T' % ev.arg_path(1)) in st,
+                   key_fn=lambda ev, nm=nm: '%s.K6:iovector::extract_%s_continuous:copy-only-if-enough-and-allocated' % (P, nm),
+                   describe=lambda ev: 'the gather copy runs only if the vector holds >= bytes and the buffer was allocated', min_sites=1, what='extract(bytes, buf)')
